@@ -112,14 +112,15 @@ def handler : Driver.Handler := fun c i => do
     | .ok pj => (match PlanJson.planOrErr pj with | .ok (.ok p) => some p | _ => none)
     | .error _ => none
   -- K 1: "sql" (ExecutionContext::sql) is the production configuration
-  let kSql := ans "sql" == ans "prod"
+  let kSql := if ran (ans "sql") || ran (ans "prod") then ans "sql" == ans "prod" else true
   -- K 2: translated gates vs. what the rules did
   let firedGkr := firedRules.contains "only:GroupKeyReduction"
   let firedPj := firedRules.contains "only:PackedJoinKeys"
   let mut kNotes : List String := []
   let mut kGate := true
   if stream == "gkr" then
-    let predicted := uniqueGate st "t" "k"
+    -- any integer group column may serve as the key (`try_reduce` tries every position); both belong to table t
+    let predicted := uniqueGate st "t" "k" || uniqueGate st "t" "d"
     if predicted != firedGkr then
       kGate := false
       kNotes := kNotes ++ [s!"unique-key gate (translated) = {predicted}, GroupKeyReduction fired = {firedGkr}"]
@@ -156,9 +157,22 @@ def handler : Driver.Handler := fun c i => do
   let f1 := !bad.isEmpty && what == "unique" && neutralOk && subsetOf bad ["prod", "sql", "only:GroupKeyReduction", "only:EagerAggregation"]
     && (firedRules.contains "only:GroupKeyReduction" || firedRules.contains "only:EagerAggregation")
   let f2 := !bad.isEmpty && what == "rename" && neutralOk && subsetOf bad ["prod", "sql", "only:PackedJoinKeys", "only:PackedGroupKeys", "only:EagerAggregation"]
+  -- C03-F2, second face: a key column that exists in several tables is bounded with ANOTHER table's statistics when
+  -- its own table has none (files written without statistics)
+  let caseTables := ((c.getObjValAs? (Array Json) "tables").toOption.getD #[]).toList
+  let tablesWith (col : String) : List String := caseTables.filterMap (fun t =>
+    let cols := ((t.getObjValAs? (Array Json) "cols").toOption.getD #[]).toList.filterMap (fun cj => (cj.getArr?.toOption).bind (fun a => a[0]?.bind (fun x => x.getStr?.toOption)))
+    if cols.contains col then (t.getObjValAs? String "name").toOption else none)
+  let borrowed (col : String) : Bool :=
+    let haveT := (st.filter (fun cs => cs.name == col && cs.min.isSome && cs.max.isSome)).map (·.table)
+    !haveT.isEmpty && (tablesWith col).any (fun t => !haveT.contains t)
+  let keyNames : List String := match (planOf "noopt").bind twoKeyJoin with
+    | some (onL, onR) => (onL ++ onR).filterMap colName
+    | none => []
+  let f2b := !bad.isEmpty && subsetOf bad ["prod", "sql", "only:PackedJoinKeys"] && firedPj && keyNames.any borrowed
   let f4 := !bad.isEmpty && subsetOf bad ["prod", "sql", "only:EagerAggregation"] && firedRules.contains "only:EagerAggregation"
     && ((planOf "only:EagerAggregation").map hasFloatCountInIntSum).getD false
-  let attr : Option String := if f1 then some "C03-F1" else if f2 then some "C03-F2" else if f4 then some "C03-F4" else none
+  let attr : Option String := if f1 then some "C03-F1" else if f2 || f2b then some "C03-F2" else if f4 then some "C03-F4" else none
   let model := Json.mkObj [("bad", Json.arr (bad.map Json.str).toArray), ("fired", Json.arr (firedRules.map Json.str).toArray),
     ("k_notes", Json.arr (kNotes.map Json.str).toArray), ("neutral_ok", Json.bool neutralOk)]
   pure { model := model, k := kSql && kGate, oracle := oracle, nt := !firedRules.isEmpty, attr := attr,
